@@ -683,14 +683,14 @@ func main() {
 		load(f, "corpus")
 	}
 
-	ncore := o.Scale(780, 60000)
+	ncore := o.Scale(780, 9000)
 	for i := 0; i < ncore; i++ {
 		size, ops, bk := genCore(r)
 		cs := cores[i%nCoreSets]
 		cs.Cases = append(cs.Cases, runCore(size, ops).toCase(bk))
 	}
 
-	napi := o.Scale(168, 8000)
+	napi := o.Scale(168, 1200)
 	type job struct {
 		in apiCase
 		bk []string
